@@ -284,6 +284,11 @@ R21 = {
  "C10": "as C17 (the scanner relies on the alphabet's tables)",
 }
 
+# Clauses added in round 23 (DESIGN.md §10.22).
+R23 = {
+ "C03": "the FASTQ quality line that is decoded is the one whose length was found equal to the number of letters",
+}
+
 NOT_APPLICABLE = {
 }
 
@@ -342,7 +347,11 @@ def main():
                 tech = tech + "; " + R21[pid]
                 text = text + " Round 21 (DESIGN §10.20) adds: " + R21[pid] + "."
                 ref = ref + ", §10.20"
-            text = text + " The thorough tier also replays the independently written behaviour-preserving refactorings of /verif/benign (DESIGN §10.8, §10.9, §10.11, §10.13, §10.15, §10.17, §10.19) and fails if one of them is reported."
+            if pid in R23:
+                tech = tech + "; " + R23[pid]
+                text = text + " Round 23 (DESIGN §10.22) adds: " + R23[pid] + "."
+                ref = ref + ", §10.22"
+            text = text + " The thorough tier also replays the independently written behaviour-preserving refactorings of /verif/benign (DESIGN §10.8, §10.9, §10.11, §10.13, §10.15, §10.17, §10.19, §10.21) and fails if one of them is reported."
             checks.append({
                 "property_id": pid,
                 "quick_cmd": "./check %s quick" % pid,
